@@ -34,7 +34,7 @@ def run(ctx, mod, repo):
         if not new:
             ctx.ok('CFG', 'features=' + feat, '', 'all %d obligations have the same verdict under cargo feature %s' % (len(sub.obs), feat), nontrivial=False)
     corpus = json.load(open(os.path.join(VERIF, 'mutants', 'corpus.json')))['mutants'].get(ctx.prop, [])
-    if corpus or os.path.isdir(os.path.join(VERIF, 'seeded')):
+    if corpus or os.path.isdir(os.path.join(VERIF, 'seeded')) or os.path.isdir(os.path.join(VERIF, 'benign')):
         scratch = tempfile.mkdtemp(prefix='verif-thorough-%s-' % ctx.prop)
         try:
             subprocess.run(['rsync', '-a', '--exclude', 'target', '--exclude', '.git', repo.rstrip('/') + '/', scratch + '/'], check=True)
@@ -90,6 +90,35 @@ def run(ctx, mod, repo):
                     ctx.ok('MUT', 'caught:seeded:' + sid, '', 'seeded change %s is reported by %s' % (sid, hits[:3]), nontrivial=True)
                 else:
                     misses.append(('seeded:' + sid, []))
+            # behaviour-preserving variants (benign/*.diff: refactorings that keep every property): the
+            # check must stay silent on each of them — an alarm here is a defect of the checker
+            bd = os.path.join(VERIF, 'benign')
+            alarms = []
+            for name in sorted(os.listdir(bd)) if os.path.isdir(bd) else []:
+                pp = os.path.join(bd, name)
+                if not name.endswith('.diff'):
+                    continue
+                if subprocess.run(['git', 'apply', '--check', pp], cwd=scratch, capture_output=True).returncode != 0:
+                    report['mutants'].append({'name': 'benign:' + name, 'status': 'stale'})
+                    ctx.ok('BEN', 'stale:' + name, '', 'behaviour-preserving variant no longer applies to the current tree: skipped', nontrivial=False)
+                    continue
+                subprocess.run(['git', 'apply', pp], cwd=scratch, check=True)
+                try:
+                    d, info = extract(scratch)
+                    sub = Ctx(ctx.prop, Program(d), 'thorough')
+                    mod.run(sub)
+                    new = sorted('%s:%s' % k for k, o in _open(sub).items() if k not in base_open)
+                except CheckBroken as e:
+                    new = ['<does not compile: %s>' % str(e)[-200:]]
+                finally:
+                    subprocess.run(['git', 'apply', '-R', pp], cwd=scratch, check=True)
+                report['mutants'].append({'name': 'benign:' + name, 'new_open': new})
+                if new:
+                    alarms.append((name, new[:4]))
+                else:
+                    ctx.ok('BEN', 'silent:' + name, '', 'no obligation changes its verdict on the behaviour-preserving variant %s' % name, nontrivial=True)
+            if alarms:
+                raise CheckBroken('the check raises an alarm on behaviour-preserving variant(s): %s' % alarms)
             if misses:
                 raise CheckBroken('sensitivity corpus: mutant(s) not reported by the expected rule: %s' % misses)
         finally:
